@@ -8,6 +8,7 @@ import PP.Driver.OpsC17
 import PP.Driver.OpsC20
 import PP.Driver.OpsC16
 import PP.Driver.OpsC01
+import PP.Driver.OpsC11
 /-
 Request handlers of the model driver.
 -/
@@ -174,6 +175,9 @@ def handle (j : Json) : Except String Json := do
             | none =>
               match PP.OpsC01.handle op j with
               | some r => r
-              | none => throw s!"unknown op {op}"
+              | none =>
+                match PP.OpsC11.handle op j with
+                | some r => r
+                | none => throw s!"unknown op {op}"
 
 end PP.Ops
